@@ -133,6 +133,21 @@ CHECKS = {
                 "ties and the htslib oracle, not yet by theorems. indelpost support counts are inputs (trusted).",
         "technique": "Lean 4 proof (structural induction over CIGAR and read lists) + differential correspondence on tuples and pysam-written BAMs",
     },
+    "C07": {
+        "text": "Lean model of _normalize_coverage and of the three per-base depth walkers (sample pileup, neutral-region walker, profile "
+                "walker; their op-code lists are regenerated from the source). Machine-checked: the three walkers consume the same reference bases "
+                "for every CIGAR operation, hence agree on every read set all of them accept; duplicating every read k times multiplies every "
+                "region sum by k; normalised depth is invariant when sample and neutral sums are both multiplied by k != 0, linear in the gene "
+                "sum, equals exactly PROFILE_COPIES = 2 when profile and sample sums coincide (self profile) and the region is covered; an empty "
+                "neutral region is an error. Tie: real Sample/Profile.load/get_sam_profile_data on simulated read sets (indels, clips, flags, "
+                "custom neutral regions, both strands) vs the model in four metamorphic variants + profile YAML round trip; metamorphic oracle "
+                "on the real values.",
+        "design_ref": "DESIGN.md section 4 (C07)",
+        "note": "The consequence 'reported structure independent of depth' follows from invariance of the depth vector fed to the CN stage; "
+                "_filter_configs' absolute min_coverage threshold can differ between depths (documented hypothesis FilterStable, not a theorem). "
+                "NA10860 approximate check not run in the quick tier.",
+        "technique": "Lean 4 proof (field arithmetic over Rat, op-table case analysis) + metamorphic differential correspondence on pysam-written BAMs",
+    },
 }
 
 NOT_YET = "check not built yet (work in progress; see DESIGN.md section 9 build order)"
